@@ -2,7 +2,7 @@
 from engine.driver import Cond, Run, source_fingerprint
 from checks.parsefam import *
 
-FRAG_SPECS = [("prefix", 3, 5), ("list", 3, 4), ("nested", 3, 4), ("rec", 3, 4), ("uni", 2, 3), ("open", 3, 4), ("nullstar", 2, 3)]
+FRAG_SPECS = [("prefix", 3, 5), ("list", 2, 4), ("nested", 3, 4), ("rec", 3, 4), ("uni", 2, 3), ("open", 3, 4), ("nullstar", 2, 3)]
 
 
 def run(tier):
